@@ -11,8 +11,42 @@ def gen_strategy(rng):
     return {'kind': 'pct', 'd': rng.choice([1, 2, 3, 5]), 'est': rng.choice([200, 1000, 5000])}
 
 
+LOGS = []          # (level, logger, message, exc text) of the current run; cleared by the runner
+
+
+class _Capture(logging.Handler):
+    """Lock-free capturing handler: logging's own locks are real locks and must not be taken by
+    sim-threads; never draws from a PRNG or reads the sim clock."""
+
+    def createLock(self):
+        self.lock = None
+
+    def acquire(self):
+        pass
+
+    def release(self):
+        pass
+
+    def emit(self, record):
+        if len(LOGS) < 400:
+            try:
+                msg = record.getMessage()
+            except Exception:
+                msg = str(record.msg)
+            exc = ''
+            if record.exc_info and record.exc_info[1] is not None:
+                exc = repr(record.exc_info[1])
+            LOGS.append((record.levelname, record.name, msg[:300], exc[:300]))
+
+
 def quiet_logging():
-    logging.disable(logging.CRITICAL)
+    root = logging.getLogger()
+    for h in list(root.handlers):
+        root.removeHandler(h)
+    root.addHandler(_Capture())
+    root.setLevel(logging.WARNING)
+    logging.getLogger('cassandra').setLevel(logging.WARNING)
+    logging.raiseExceptions = False
 
 
 class Violations(object):
@@ -46,6 +80,7 @@ def set_knob(obj, attr, value):
 
 
 def restore_knobs():
+    del LOGS[:]
     while _knobs:
         obj, attr, old, missing = _knobs.pop()
         if old is missing:
